@@ -31,3 +31,12 @@ def run(rep: Report, repo: Repo, tier: str) -> None:
         from . import trace_rules
         with rep.isolated():
             trace_rules.rule_flag_traces(rep, repo, "C08-I1")
+    # every doccomment-carrying command gets its own entry, built from its own arguments, whatever stood before it
+    with rep.isolated():
+        protocol.rule_protocol_default(rep, repo, "C08-R8")
+    with rep.isolated():
+        render.rule_class_rendering(rep, repo, "C08-R9")
+    # the switch consulted is the one of the command's kind however the command is capitalised
+    from . import misc_rules as _mr
+    with rep.isolated():
+        _mr.rule_case_folding(rep, repo, "C08-R10")
